@@ -61,7 +61,7 @@ class _Dec:
         return SBytes([P.xor8(x, self.k) for x in (ct.items if type(ct) is SBytes else list(ct))])._maybe_concrete()
 
 
-def tamper_case(mode, bs, macsize, nblocks, for_c38=False, out=None):
+def tamper_case(mode, bs, macsize, nblocks, for_c38=False, out=None, dump=False):
     """out: how the OUTBOUND direction of the same packetizer is keyed (None / "classic" / "etm" / "aead"); what is
     negotiated for sending must not influence how received packets are authenticated"""
     def fn(ctx):
@@ -80,6 +80,11 @@ def tamper_case(mode, bs, macsize, nblocks, for_c38=False, out=None):
         dec = _Dec(ctx, ks[0])
         with P.pkt_env(ctx, mac):
             rx._Packetizer__sequence_number_in = seq
+            dumping = False
+            if dump:                                    # the receiver logs packet dumps (set_hexdump)
+                rx.set_hexdump(True)
+                rx._log = lambda *a, **k: None
+                dumping = True
             if out == "aead":
                 rx.set_outbound_cipher(_Dec(ctx, 0x5a), bs, None, 16, b"ok", aead=True, iv_out=iv)
             elif out is not None:
@@ -88,8 +93,14 @@ def tamper_case(mode, bs, macsize, nblocks, for_c38=False, out=None):
                 rx.set_inbound_cipher(dec, bs, None, 16, key, aead=True, iv_in=iv)
             else:
                 rx.set_inbound_cipher(P.XorStream(ks), bs, "sha", macsize, key, etm=(mode == "etm"))
+            import contextlib
+            import paramiko.util as _PU
+            from sx.stubs import patched as _patched
+            # the dump text itself is formatting, not the subject: an empty rendering (in both modes)
+            quiet = _patched([(_PU, "format_binary", lambda data, prefix="": [])]) if dumping else contextlib.nullcontext()
             try:
-                cmd, m = rx.read_message()
+                with quiet:
+                    cmd, m = rx.read_message()
             except (SSHException, EOFError, P.InvalidTag):
                 ctx.reach("rejected-or-waiting-for-more-data")
                 return
@@ -138,7 +149,7 @@ def tamper_case(mode, bs, macsize, nblocks, for_c38=False, out=None):
             want = plain[1:ps - pad] if not ctx.symbolic else plain[1:lift(ps) - pad]      # the slice the RFC framing defines
             ctx.prove(lift(cmd) == want[0] if len(want) else False, "delivered-type-is-cut-from-the-authenticated-bytes")
             ctx.prove(P.beq(payload, want[1:]), "delivered-payload-is-cut-from-the-authenticated-bytes")
-    name = "%s-bs%d-mac%d-%dblocks" % (mode, bs, macsize, nblocks) + ("-sending-%s" % out if out else "")
+    name = "%s-bs%d-mac%d-%dblocks" % (mode, bs, macsize, nblocks) + ("-sending-%s" % out if out else "") + ("-hexdump" if dump else "")
     if for_c38:
         return Case("packet-layer-" + name, fn, ["rejected-or-waiting-for-more-data", "failure-is-an-ssh-exception-or-none"],
                     {"mode": mode, "wire": "%d arbitrary symbolic bytes, MAC/tag check may succeed" % (nblocks * bs)},
@@ -166,4 +177,7 @@ def cases(tier):
     cs.append(tamper_case("etm", 8, 12, 2, out="etm"))
     cs.append(tamper_case("classic", 16, 32, 2, out="aead"))
     cs.append(tamper_case("aead", 16, 16, 2, out="etm"))
+    # logging packet dumps must not change what is authenticated
+    cs.append(tamper_case("classic", 8, 12, 2, dump=True))
+    cs.append(tamper_case("etm", 8, 12, 2, dump=True))
     return cs
